@@ -246,6 +246,16 @@ func (s *Server) serveOne(ctx context.Context, r io.Reader, w io.Writer, shmConn
 		return nil
 	}
 
+	// ReadRequest lets zero-row pointer batches through so they can be
+	// resolved above. Whatever is left now is what gets bound to the
+	// handler's parameters, so the one-row rule applies again.
+	if rowErr := validateRequestRows(req.Batch); rowErr != nil {
+		emptySchema := arrow.NewSchema(nil, nil)
+		s.logIPCWriteErr("error-response", req.Method,
+			writeErrorResponse(w, emptySchema, rowErr, s.serverID, req.RequestID, s.debugErrors))
+		return nil
+	}
+
 	// Capture self-contained IPC bytes of the request batch for observability
 	// hooks. This re-encodes the whole request payload, so only pay for it when
 	// a hook is actually installed to consume DispatchInfo.RequestData.
